@@ -100,12 +100,17 @@ def cp437High : List Nat :=
 def cpDecode (b : UInt8) : Nat :=
   if b.toNat < 128 then b.toNat else cp437High.getD (b.toNat - 128) 0
 
+/-- position of `c` in a table, counted from `i`. -/
+def idxIn (c : Nat) : List Nat → Nat → Option Nat
+  | [], _ => none
+  | x :: xs, i => if x = c then some i else idxIn c xs (i + 1)
+
 /-- `CP437.encode` of one character (`none`: not in the repertoire; the Rust code
 `unwrap`s, i.e. panics). -/
 def cpEncode (c : Nat) : Option UInt8 :=
   if c < 128 then some (byte c)
   else
-    match cp437High.idxOf? c with
+    match idxIn c cp437High 0 with
     | some i => some (byte (128 + i))
     | none => none
 
